@@ -166,7 +166,9 @@ Ev(e, st, cx) ==
              st1 == EvArgs(e.args, 1, f.params, st, cx)
              st2 == IF st1["_fuel"] = 0 THEN st1
                     ELSE RunBody(f.body, 1, [st1 EXCEPT !["_fuel"] = @ - 1, !["_ret"] = 0], cx).st
-         IN Res(st2["_ret"], Ty(8, FALSE), st2, FALSE))
+             \* the result has the function's return type: unsigned char, or signed char when the function table says so
+             rsg == "rsg" \in DOMAIN f /\ f.rsg
+         IN Res(Wrap(st2["_ret"], Ty(8, rsg)), Ty(8, rsg), st2, FALSE))
 
 EvArgs(args, i, params, st, cx) ==
   IF i > Len(args) THEN st ELSE
